@@ -36,6 +36,7 @@ ASSUMPTIONS = [
     "Pool.map applies the function to each item and returns the results in input order (contract of multiprocessing.Pool.map and of any user-supplied pool)",
     "a vectorised user function returns one value per row, in row order; a non-vectorised one returns a scalar or a length-1 array",
     "from_unit_hypercube maps each point independently (uninterpreted per-point map)",
+    "'exactly the pointwise values' for a function classed as vectorised is read as: batch and pointwise values agree to 1e-14 (absolute + relative), the rounding level of a double; numpy's vectorised kernels may round differently from scalar code, so exact equality cannot be demanded of user functions",
 ]
 OUTSIDE = ["real fork pools and their scheduling", "batches larger than the bound", "user functions that are not pure functions of the point"]
 
